@@ -108,13 +108,18 @@ def bounded_standin(pid, tier, seed, bdir):
 def run_for(pid, tier, seed, bdir, spec):
     """secondary evidence; (list of records, list of violations)"""
     out, viol = [], []
-    if tier != "thorough" or pid not in NATIVE:
+    # the bounded native checks run in the thorough tier, and in every tier for a property part of whose cone is outside
+    # the verifier's reach (spec["native_always"]): there they are the stated bounded stand-in for that part
+    if (tier != "thorough" and not spec.get("native_always")) or pid not in NATIVE:
         return out, viol
     if not build():
         out.append({"name": "native-bounded", "status": "not-built", "bounded": True, "counts_as_proof": False, "log": _built["log"][-500:]})
         return out, viol
     for cmd, qa, ta in NATIVE[pid]:
-        rec = run_native(cmd, ta, seed)
+        rec = run_native(cmd, ta if tier == "thorough" else qa, seed)
+        if rec.get("status") == "crashed":
+            rec = {"status": "violation", "cmd": " ".join([BIN, cmd] + list(ta if tier == "thorough" else qa)), "bound": "crash",
+                   "violation": {"input": {"cmd": cmd}, "real": {"crash": rec.get("stderr", "")[-800:]}, "expected": "no panic"}}
         entry = {"name": "native-bounded:" + cmd, "status": rec.get("status"), "bounded": True, "counts_as_proof": False,
                  "bound": rec.get("bound"), "evaluations": rec.get("evaluations"), "distinct": rec.get("distinct"),
                  "wall_s": rec.get("wall_s"), "samples": rec.get("samples", [])[:4], "obligations": 0, "discharged": 0}
